@@ -29,6 +29,8 @@ pub enum EditKind {
     IdFresh,
     NumZero,
     NumNeg,
+    /// a value just below zero (the residue of a rotation, a rounding): -1e-6
+    NumTinyNeg,
 }
 
 #[derive(Clone, Debug)]
@@ -75,6 +77,9 @@ pub fn enumerate_edits(v: &Value) -> Vec<Edit> {
                 out.push(Edit { path: path.clone(), kind: EditKind::NumZero });
                 if n.as_f64().map_or(false, |x| x != 0.0) {
                     out.push(Edit { path: path.clone(), kind: EditKind::NumNeg });
+                }
+                if n.is_f64() {
+                    out.push(Edit { path: path.clone(), kind: EditKind::NumTinyNeg });
                 }
             }
             _ => {}
@@ -153,6 +158,10 @@ pub fn apply_edit(base: &Value, e: &Edit) -> Value {
         EditKind::NumZero => {
             let node = nav(&mut v, &e.path);
             *node = if node.is_f64() { json!(0.0) } else { json!(0) };
+        }
+        EditKind::NumTinyNeg => {
+            let node = nav(&mut v, &e.path);
+            *node = json!(-1.0e-6);
         }
         EditKind::NumNeg => {
             let node = nav(&mut v, &e.path);
@@ -557,7 +566,7 @@ pub fn run(ctx: &Ctx) -> i32 {
     ctx.outcome(&"noload");
     ctx.finish(
         "fault_enumeration",
-        &format!("(a) every single JSON-tree edit {{delete key, delete array item, empty/duplicate-last/truncate array, id -> nil / next other id of the document / fresh id, number -> 0, number -> -number}} of the bases (quick: generated tiny + micro models and cubo.json; thorough: + the other 6 shipped models); (b) every ordered pair of such edits on the micro model (thorough: also on the tiny model); (c) every editor history of length <= {} from the empty model, and of one step less from a model that already holds a small library of constructions, over {} operations (add space / wall / dangling wall / ground floor / window / wallcons / material / wincons / glass+frame / bridge / shade / loads+schedules / n50+ventilation / interior wall); each resulting document that loads as a Model is run through energy_indicators() in a supervised worker process (20 s watchdog, 4 GiB, panic-site capture, post-panic sentinel on cubo.json); closed models with positive sizes must report only finite numbers and JSON that loads back; non-trivial = document loads as a model", maxlen, NOPS),
+        &format!("(a) every single JSON-tree edit {{delete key, delete array item, empty/duplicate-last/truncate array, id -> nil / next other id of the document / fresh id, number -> 0, number -> -number, number -> -1e-6}} of the bases (quick: generated tiny + micro models and cubo.json; thorough: + the other 6 shipped models); (b) every ordered pair of such edits on the micro model (thorough: also on the tiny model); (c) every editor history of length <= {} from the empty model, and of one step less from a model that already holds a small library of constructions, over {} operations (add space / wall / dangling wall / ground floor / window / wallcons / material / wincons / glass+frame / bridge / shade / loads+schedules / n50+ventilation / interior wall); each resulting document that loads as a Model is run through energy_indicators() in a supervised worker process (20 s watchdog, 4 GiB, panic-site capture, post-panic sentinel on cubo.json); closed models with positive sizes must report only finite numbers and JSON that loads back; non-trivial = document loads as a model", maxlen, NOPS),
         true,
         json!({}),
     )
